@@ -223,7 +223,13 @@ class StoreSession:
                 if not ent:
                     continue
                 meta, _, name = ent.partition(b"\t")
-                blob = git(p, "cat-file", "blob", meta.split()[2].decode()).stdout
+                cf = git(p, "cat-file", "blob", meta.split()[2].decode(), check=False)
+                if cf.returncode != 0:
+                    # the tree names an object the repository does not hold: an observation
+                    info["fsck"] = False
+                    info["status"] = "git-error: unreadable object in HEAD tree"
+                    continue
+                blob = cf.stdout
                 nm = name.decode("utf-8", "replace")
                 if nm == ".xandikos":
                     info["cfg"] = self.X(blob)
@@ -233,7 +239,7 @@ class StoreSession:
             st = git(p, "status", "--porcelain", check=False)
             info["clean"] = st.returncode == 0 and st.stdout.strip() == b""
             info["status"] = st.stdout.decode("utf-8", "replace")[:200]
-        info["fsck"] = git(p, "fsck", "--strict", "--no-dangling", check=False).returncode == 0
+        info["fsck"] = info["fsck"] and git(p, "fsck", "--strict", "--no-dangling", check=False).returncode == 0
         return info
 
     def trace(self, tid):
